@@ -155,6 +155,22 @@ Theorem C06_timeoutdict_lifetime : forall (K V : Type) (keqb : K -> K -> bool),
 Proof. exact @timeoutdict_lifetime. Qed.
 Print Assumptions C06_timeoutdict_lifetime.
 
+(* pop is not an idle-reset: the timer that is pending keeps its deadline (the code has one call_later handle per dict and
+   pop does not touch it); an entry assigned after a pop that emptied the dict is recorded as recently accessed and survives
+   the old timer's tick — part of C06_timeoutdict_lifetime (TPop), shown on the seeded history below *)
+Theorem C06_timeoutdict_pop_keeps_timer : forall (K V : Type) (keqb : K -> K -> bool) k (d : td K V),
+  td_timer (td_pop keqb k d) = td_timer d.
+Proof. exact @td_pop_timer. Qed.
+Print Assumptions C06_timeoutdict_pop_keeps_timer.
+Example C06_timeoutdict_pop_scenario :
+  let T := MAX_TRANSMIT_WAIT_us in
+  match drun T (0, td_empty) [DSet 0 1; DAdv (T / 2); DPop 0; DAdv (T / 10); DSet 0 2; DAdv (7 * T / 10); DGet 0; DAdv (T - 1); DGet 0; DAdv (2 * T); DGet 0] with
+  | [_; _; DOut (Some 1) [] (Some due_after_pop); _; DOut None [0] (Some due_after_set); DOut None [0] (Some due2); DOut (Some 2) [0] _; _; DOut (Some 2) [0] _; _; DOut None [] None] =>
+      due_after_pop = T /\ due_after_set = T /\ due2 = 2 * T
+  | _ => False
+  end.
+Proof. vm_compute. repeat split. Qed.
+
 (* the two rounds of td_advance fire every due timer (fixed point of the loop) and keep the invariant *)
 Theorem C06_timeoutdict_advance_settled : forall (K V : Type) (keqb : K -> K -> bool),
   (forall a b, keqb a b = true <-> a = b) -> forall T, 0 < T ->
